@@ -60,4 +60,20 @@ end
 def closedUnder (imp : Nat → List Nat) (v : List Nat) : Bool :=
   v.all (fun p => (imp p).all (fun q => v.contains q))
 
+/-! ## which main packages start the tracking service (`applyMainEntries`, `Config.IsMainEntry`) -/
+
+/-- `Config.IsMainEntry`: an entry `*`, or the main package's directory itself (string equality) -/
+def isMainEntry (entries : List String) (dir : String) : Bool :=
+  entries.any (fun e => e == "*" || e == dir)
+
+/-- `applyMainEntries`: main package `i` (directory, ids of its component) gets the service-start
+    block with component identifier `i` when it is selected and its component lists an id -/
+def serviceStartsFrom (entries : List String) : Nat → List (String × List Nat) → List Nat
+  | _, [] => []
+  | i, (d, ids) :: r =>
+    (if isMainEntry entries d && !ids.isEmpty then [i] else []) ++ serviceStartsFrom entries (i + 1) r
+
+def serviceStarts (entries : List String) (mains : List (String × List Nat)) : List Nat :=
+  serviceStartsFrom entries 0 mains
+
 end GoatSpec
